@@ -407,8 +407,22 @@ class Inliner(object):
         pre = []
         subst = {}
         rename = {}
+        def _captured_late(pname):
+            """is the parameter read inside a nested def / lambda / comprehension of the helper (evaluated later)?"""
+            for n in ast.walk(ast.Module(body=body, type_ignores=[])):
+                if isinstance(n, FuncTypes + (ast.Lambda,)):
+                    if any(isinstance(x, ast.Name) and x.id == pname for x in ast.walk(n)):
+                        return True
+                elif isinstance(n, (ast.GeneratorExp,)):
+                    inner = [x for g in n.generators[1:] for x in ast.walk(g.iter)] + list(ast.walk(n.elt)) \
+                        + [x for g in n.generators for c_ in g.ifs for x in ast.walk(c_)]
+                    if any(isinstance(x, ast.Name) and x.id == pname for x in inner):
+                        return True
+            return False
         for p, v in bound:
-            if _simple(v) and p not in stored:
+            # a variable of the caller handed to a helper that closes over its parameter: the helper holds the value
+            # the variable has at the call, whatever the caller binds the name to afterwards - kept in a local of its own
+            if _simple(v) and p not in stored and not (isinstance(v, ast.Name) and _captured_late(p)):
                 subst[p] = v
             else:
                 rename[p] = p + suffix
